@@ -3,6 +3,7 @@
   neighbour lists of a (depth, connectivity) pair; later lines refer to them.
 -/
 import Driver.Common
+import MocVerif.Model.FillHoles
 import Driver.C06
 import MocVerif.Model.Graph
 
@@ -48,6 +49,11 @@ def stepGraph (t : AdjTable) (toks : List String) : Option (AdjTable × String) 
   | ["sp_int", d, cells] => do
     let d ← d.toNat?; let s ← parseNats cells; let g ← lookupAdj t d 1
     pure (t, showNats (intBorder g (allCells d) s))
+  | ["sp_fill", d, n, cells] => do
+    -- `fill_holes(Some(n))`: components of the complement over the edge-or-vertex adjacency (v = 1)
+    let d ← d.toNat?; let n ← n.toNat?; let s ← parseNats cells; let g ← lookupAdj t d 1
+    if tieAtCut (holesSorted g (allCells d) (norm s)) (1 + n) then pure (t, "tie")
+    else pure (t, showNats (fillHoles g (allCells d) (norm s) n))
   | ["sp_split", d, v, cells] => do
     let d ← d.toNat?; let v ← v.toNat?; let s ← parseNats cells; let g ← lookupAdj t d v
     pure (t, showComps (sortComps (splitAll g (norm s))))
